@@ -1,3 +1,4 @@
+import ElkVerif.Props.C01
 import ElkVerif.Proofs.MiniSoundBMain
 import ElkVerif.Proofs.MiniSoundBEmbed
 import ElkVerif.Proofs.MiniCheckMono
